@@ -3,6 +3,8 @@ import UberjobModel.Props.C05
 #print axioms Uberjob.Cache.C05_downstream
 #print axioms Uberjob.Cache.C05_fresh_monotone
 #print axioms Uberjob.Cache.C05_idempotent
+#print axioms Uberjob.Cache.C05_stale_check_any_schedule
+#print axioms Uberjob.Cache.C05_stale_check_result
 #print axioms Uberjob.Cache.C05_end_to_end_only_stale
 #print axioms Uberjob.Cache.C05_end_to_end
 #print axioms Uberjob.Cache.C05_source_shape
